@@ -1,4 +1,5 @@
 import Qryn.Ingest.SpanCfg
+import Qryn.Ingest.SpanJson
 /-! Line protocol of the span model (C06). See harness/cmd/vcheck/c06.go for the grammar. -/
 namespace Driver.C06
 open Qryn Qryn.Span
@@ -24,6 +25,7 @@ partial def pVal : P AnyValue := do
   | "d" => do pure (.dbl (← pNat))
   | "y" => do pure (.bytes (← pHex))
   | "u" => pure .unset
+  | "N" => pure .nilp
   | "a" => do let n ← pNat; pure (.arr (← many pVal n))
   | "m" => do
     let n ← pNat
@@ -42,7 +44,9 @@ def pOSpan : P OSpan := do
     | "T" => do let c ← pNat; let m ← pHex; pure (some (c, m))
     | _ => failure
   let attrs ← pKVs
-  pure ⟨tid, sid, pid, name, kind, st, en, attrs, status⟩
+  let ne ← pNat
+  let events ← many (do let t ← pNat; let n ← pHex; pure (t, n)) ne
+  pure ⟨tid, sid, pid, name, kind, st, en, attrs, status, events⟩
 
 def pTraces : P TracesData := do
   let n ← pNat
@@ -69,10 +73,10 @@ def pEndpoint : P (Option Endpoint) := do
   | "~" => pure none
   | "e" => do
     let sn ← tok
-    let sn ← if sn == "a" then pure EpName.absent else if sn == "x" then pure EpName.bad
-      else if sn.startsWith "s" then pure (EpName.str (← (hexOf (sn.drop 1).toString : Option Bytes))) else failure
+    let svcs : List (Option Str) ← if sn == "a" then pure [] else if sn == "x" then pure [none]
+      else if sn.startsWith "s" then pure [some (← (hexOf (sn.drop 1).toString : Option Bytes))] else failure
     let v4 ← pOptStr; let v6 ← pOptStr; let port ← pInt
-    pure (some ⟨sn, v4, v6, port⟩)
+    pure (some ⟨svcs, v4, v6, port⟩)
   | _ => failure
 
 def pZField : P ZField := do
@@ -93,6 +97,12 @@ def pZField : P ZField := do
     else do
       let n ← (t.toNat? : Option Nat)
       pure (.tags (some (← many (do let k ← pHex; let v ← pJStr; pure (k, v)) n)))
+  | "A" => do
+    let t ← tok
+    if t == "~" then pure (.annotations none)
+    else do
+      let n ← (t.toNat? : Option Nat)
+      pure (.annotations (some (← many (do let ts ← pNat; let v ← pHex; pure (ts, v)) n)))
   | "O" => pure .other
   | _ => failure
 
@@ -101,7 +111,7 @@ def pZSpan : P (ZSpan × Nat) := do
   let serial ← pNat; let rawLen ← pNat; let n ← pNat
   let fs ← many pZField n
   -- the serial number is carried in `rawLen`'s place for rendering: rawLen is kept in the document
-  pure (⟨fs, rawLen⟩, serial)
+  pure ({ fields := fs, rawLen := rawLen }, serial)
 
 /-! rendering -/
 
@@ -112,6 +122,7 @@ partial def rVal : AnyValue → List String
   | .dbl b => ["d", toString b]
   | .bytes b => ["y", hexOut b]
   | .unset => ["u"]
+  | .nilp => ["N"]
   | .arr vs => ["a", toString vs.length] ++ vs.flatMap rVal
   | .kvl kvs => ["m", toString kvs.length] ++ kvs.flatMap (fun kv => hexOut kv.1 :: rVal kv.2)
 
@@ -121,14 +132,16 @@ def rOSpan (s : OSpan) : String :=
   ",".intercalate ([hexOut s.traceId, hexOut s.spanId, hexOut s.parentSpanId, hexOut s.name, toString s.kind,
     toString s.startNs, toString s.endNs] ++
     (match s.status with | none => ["N"] | some (c, m) => ["T", toString c, hexOut m]) ++
-    [toString s.attrs.length] ++ s.attrs.map rKV)
+    [toString s.attrs.length] ++ s.attrs.map rKV ++
+    [toString s.events.length] ++ s.events.flatMap (fun e => [toString e.1, hexOut e.2]))
 
 def sortStrings (l : List String) : List String := (l.toArray.qsort (· < ·)).toList
 
 /-- `serials`: the spans of the request with their serial numbers (to name a Zipkin payload) -/
 def rPayload (serials : List (ZSpan × Nat)) : Payload → String
   | .empty => "E"
-  | .otlp s => "O" ++ rOSpan s
+  | .otlp lead s => "O" ++ toString lead ++ "," ++ rOSpan s
+  | .otlpJson _ => "J"
   | .zipkin d => match serials.find? (fun p => p.1 == d) with
     | some p => "Z" ++ toString p.2
     | none => "Z?"
@@ -152,10 +165,12 @@ def rRSpan (sortAttrs : Bool) : Option RSpan → String
     let attrs := s.attrs.map rKV
     ":".intercalate ["S", hexOut s.traceId, hexOut s.spanId, hexOut s.parentSpanId, hexOut s.name, toString s.kind,
       toString s.startNs, toString s.endNs, toString s.status.1, hexOut s.status.2, hexOut s.serviceName,
-      ";".intercalate (if sortAttrs then sortStrings attrs else attrs)]
+      ";".intercalate (if sortAttrs then sortStrings attrs else attrs),
+      ";".intercalate (s.events.map (fun e => toString e.1 ++ "," ++ hexOut e.2))]
 
 def rRead (sortAttrs : Bool) (r : List (Option RSpan) × ReadEnd) : String :=
-  "|".intercalate ((match r.2 with | .done => "done" | .stopped => "stopped" | .crashed => "crashed") :: r.1.map (rRSpan sortAttrs))
+  -- a panic in the goroutine of `OutputQuery` is recovered there: the stream ends as after an error
+  "|".intercalate ((match r.2 with | .done => "done" | .stopped => "stopped" | .crashed => "stopped") :: r.1.map (rRSpan sortAttrs))
 
 def noLen : OSpan → Nat := fun _ => 0
 
@@ -170,6 +185,58 @@ def pZip : P (Framing × List (ZSpan × Nat)) := do
   let n ← pNat
   pure (f, ← many pZSpan n)
 
+
+/-! JSON trees: `z` null, `t`/`f`, `n<hexraw>[:<f64 bits>]`, `s<hex>`, `a <n> TREE*`, `o <n> (<hexkey> TREE)*` -/
+partial def pJVal : P JVal := do
+  let t ← tok
+  if t == "z" then pure .null
+  else if t == "t" then pure (.bool true)
+  else if t == "f" then pure (.bool false)
+  else if t == "a" then do let n ← pNat; pure (.arr (← many pJVal n))
+  else if t == "o" then do
+    let n ← pNat
+    pure (.obj (← many (do let k ← pHex; let v ← pJVal; pure (k, v)) n))
+  else if t.startsWith "n" then
+    match (t.drop 1).toString.splitOn ":" with
+    | [h] => do pure (.num (← (hexOf h : Option Bytes)) 0)
+    | [h, b] => do pure (.num (← (hexOf h : Option Bytes)) (← (b.toNat? : Option Nat)))
+    | _ => failure
+  else if t.startsWith "s" then do pure (.str (← (hexOf (t.drop 1).toString : Option Bytes)))
+  else failure
+
+/-- a span text: `<serial> <len> <tailhex> WT RT`, WT = `!` | TREE, RT = `=` (same tree) | `!` | TREE -/
+def pZText : P (ZText × Nat) := do
+  let serial ← pNat; let len ← pNat; let tail ← pHex
+  let w ← tok
+  let wt ← if w == "!" then pure none else (fun st => (pJVal (w :: st)).map (fun (v, r) => (some v, r)))
+  let r ← tok
+  let rt ← if r == "=" then pure wt else if r == "!" then pure none
+    else (fun st => (pJVal (r :: st)).map (fun (v, r) => (some v, r)))
+  pure (⟨len, wt, tail, rt⟩, serial)
+
+/-- legacy OTLP/JSON payload: `<raw: ! | o ..> <nattrs> (<hexkey> 0|1)* <hexname> <kind> <nev> (<time> <hexname>)* (N | T code hexmsg)` -/
+def pOJson : P OJsonDoc := do
+  let w ← tok
+  let raw ← if w == "!" then pure none else do
+    let v ← (fun st => pJVal (w :: st))
+    match v with
+    | .obj ms => pure (some ms)
+    | _ => failure
+  let na ← pNat
+  let sAttrs ← many (do let k ← pHex; let b ← tok; pure (k, b == "1")) na
+  let name ← pHex; let kind ← pNat
+  let ne ← pNat
+  let ev ← many (do let t ← pNat; let n ← pHex; pure (t, n)) ne
+  let s ← tok
+  let status ← match s with
+    | "N" => pure none
+    | "T" => do let c ← pNat; let m ← pHex; pure (some (c, m))
+    | _ => failure
+  pure { raw := raw, sAttrs := sAttrs, sName := name, sKind := kind, sEvents := ev, sStatus := status }
+
+/-- `strconv.ParseFloat` is outside the model: the rows that need it carry a table -/
+def noF : Bytes → Nat := fun _ => 0
+
 /-- a stored row given directly (foreign rows): `<ptype> <tid> <sid> <ts> <dur> <payload: E | Z span | O span>` -/
 def pRow : P (TraceRow × List (ZSpan × Nat)) := do
   let pt ← pInt; let tid ← pHex; let sid ← pHex; let ts ← pInt; let dur ← pInt
@@ -177,8 +244,53 @@ def pRow : P (TraceRow × List (ZSpan × Nat)) := do
   match k with
   | "E" => pure (⟨tid, sid, [], [], ts, dur, [], pt, .empty⟩, [])
   | "Z" => do let (d, n) ← pZSpan; pure (⟨tid, sid, [], [], ts, dur, [], pt, .zipkin d⟩, [(d, n)])
-  | "O" => do let s ← pOSpan; pure (⟨tid, sid, [], [], ts, dur, [], pt, .otlp s⟩, [])
+  | "O" => do let lead ← pNat; let s ← pOSpan; pure (⟨tid, sid, [], [], ts, dur, [], pt, .otlp (UInt8.ofNat lead) s⟩, [])
+  | "J" => do let d ← pOJson; pure (⟨tid, sid, [], [], ts, dur, [], pt, .otlpJson d⟩, [])
   | _ => failure
+
+
+def pZipJ : P (Framing × Bool × List (ZText × Nat)) := do
+  let f ← tok
+  let f ← if f == "a" then pure Framing.array else if f == "n" then pure Framing.ndjson else failure
+  let ok ← tok
+  let n ← pNat
+  pure (f, ok == "1", ← many pZText n)
+
+def serialsOf (texts : List (ZText × Nat)) : List (ZSpan × Nat) :=
+  texts.filterMap (fun p => (docOfTrees p.1).map (fun z => (z, p.2)))
+
+/-- one push of the mixed-trace stream: `Z a|n <ok> <n> TEXT*` or `O TRACES` -/
+def pPush : P (Outcome × List (ZSpan × Nat)) := do
+  let k ← tok
+  match k with
+  | "Z" => do
+    let (f, ok, texts) ← pZipJ
+    pure (writeZipkinJ cfg f (texts.map (·.1)) ok, serialsOf texts)
+  | "O" => do
+    let td ← pTraces
+    pure (writeOTLP cfg noLen td, [])
+  | _ => failure
+
+def isNaNBits (b : Nat) : Bool := b / 2^52 % 2048 == 2047 && b % 2^52 != 0
+
+def rJAttr : Str × JAttr → String
+  | (k, .text s) => hexOut k ++ ",x" ++ hexOut s
+  | (k, .float b) => hexOut k ++ ",g" ++ (if isNaNBits b then "NaN" else toString b)
+  | (k, .json _) => hexOut k ++ ",j"
+
+def rJSpan : Option JSpan → String
+  | none => "FAULT"
+  | some j => ":".intercalate ["J", hexOut j.traceId, hexOut j.spanId, hexOut j.name, toString j.startNs, toString j.endNs,
+      hexOut j.parentSpanId, hexOut j.serviceName, ";".intercalate (sortStrings (j.attrs.map rJAttr)),
+      ";".intercalate (j.events.map (fun e => toString e.1 ++ "," ++ hexOut e.2)), toString j.status.1, hexOut j.status.2]
+
+def rJsonViews (r : List (Option RSpan) × ReadEnd) : String :=
+  "|".intercalate ((match r.2 with | .done => "done" | .stopped => "stopped" | .crashed => "stopped") :: r.1.map (fun s => rJSpan (jsonView s)))
+
+def pFTab : P (Bytes → Nat) := do
+  let n ← pNat
+  let tab ← many (do let k ← pHex; let b ← pNat; pure (k, b)) n
+  pure (fun s => ((tab.find? (fun e => e.1 == s)).map (·.2)).getD 0)
 
 def handle : List String → Option String
   | "c06otlp" :: args => do
@@ -187,18 +299,62 @@ def handle : List String → Option String
   | "c06otlprt" :: args => do
     let td ← run pTraces args
     let o := writeOTLP cfg noLen td
-    some (if o.ok then rRead true (readRows cfg o.traces) else "rej")
+    some (if o.ok then rRead true (readRows cfg noF o.traces) else "rej")
   | "c06zip" :: args => do
     let (f, spans) ← run pZip args
     some (rOutcome spans false (writeZipkin cfg f (spans.map (·.1))))
   | "c06ziprt" :: args => do
     let (f, spans) ← run pZip args
     let o := writeZipkin cfg f (spans.map (·.1))
-    some (if o.ok then rRead false (readRows cfg o.traces) else "rej")
+    some (if o.ok then rRead false (readRows cfg noF o.traces) else "rej")
   | "c06readrows" :: n :: args => do
     let n ← n.toNat?
     let rows ← run (many pRow n) args
-    some (rRead true (readRows cfg (rows.map (·.1))))
+    some (rRead true (readRows cfg noF (rows.map (·.1))))
+  | "c06zipj" :: args => do
+    let (f, ok, texts) ← run pZipJ args
+    some (rOutcome (serialsOf texts) false (writeZipkinJ cfg f (texts.map (·.1)) ok))
+  | "c06zipjrt" :: args => do
+    let (f, ok, texts) ← run pZipJ args
+    let o := writeZipkinJ cfg f (texts.map (·.1)) ok
+    some (if o.ok then rRead false (readRows cfg noF o.traces) else "rej")
+  | "c06zipjview" :: args => do
+    let (f, ok, texts) ← run pZipJ args
+    let o := writeZipkinJ cfg f (texts.map (·.1)) ok
+    some (if o.ok then rJsonViews (readRows cfg noF o.traces) else "rej")
+  | "c06otlpview" :: args => do
+    let td ← run pTraces args
+    let o := writeOTLP cfg noLen td
+    some (if o.ok then rJsonViews (readRows cfg noF o.traces) else "rej")
+  | "c06trace" :: tid :: st :: en :: n :: args => do
+    let tid ← ofHex tid
+    let st ← st.toInt?
+    let en ← en.toInt?
+    let n ← n.toNat?
+    let pushes ← run (many pPush n) args
+    let tbl := pushes.flatMap (fun p => if p.1.ok then p.1.traces else [])
+    some (rRead true (readTrace cfg noF tbl tid st en))
+  | "c06readrowsf" :: args => do
+    -- rows with a ParseFloat table: `<ntab> (<hex> <bits>)* <nrows> ROW*`
+    let (fb, rows) ← run (do let fb ← pFTab; let n ← pNat; let rows ← many pRow n; pure (fb, rows)) args
+    some (rRead true (readRows cfg fb (rows.map (·.1))))
+  | "c06viewrows" :: n :: args => do
+    let n ← n.toNat?
+    let rows ← run (many pRow n) args
+    some (rJsonViews (readRows cfg noF (rows.map (·.1))))
+  | ["c06scan", h] => do
+    some (",".intercalate ((scanLines (← ofHex h)).map hexOut))
+  | ["c06jxint", h] => do
+    match jxInt64 (← ofHex h) with
+    | some v => some (toString v)
+    | none => some "rej"
+  | ["c06fjint", h] => do some (toString (fjInt64 (← ofHex h)))
+  | ["c06fjuint", h] => do some (toString (fjUint64 (← ofHex h)))
+  | ["c06b64", h] => do
+    match B64.decodeOk (← ofHex h) with
+    | some v => some (hexOut v)
+    | none => some "rej"
+  | ["c06hexenc", h] => do some (hexOut (hexEnc (← ofHex h)))
   | ["c06fmtf", b] => do some (hexOut (fmtF (← b.toNat?)))
   | ["c06hex", h, w] => do
     match decodeHexStr (← ofHex h) (← w.toNat?) with
